@@ -12,6 +12,7 @@ def Pc.inflight : Pc â†’ Option Nat
   | .createReread r => some r
   | .createRetry r => some r
   | .createOver r _ => some r
+  | .createRecheck r => some r
   | .updateCommit r => some r
   | .deleteCommit r _ _ => some r
   | _ => none
@@ -432,8 +433,16 @@ theorem stepClient_P {g : G} {c : Client} (f : Fault) (hv : P g.view) (hc : c âˆ
     cases kind <;> simp only [stepClient] <;>
       exact finishCreate_P H (by rw [view_ite_log]; exact hv) (by rw [view_ite_log]; exact hc) rfl _ _ _
   | createOver rev old =>
-    cases kind <;> simp only [stepClient] <;>
-      exact finishCreate_P H (by rw [view_ite_log]; exact hv) (by rw [view_ite_log]; exact hc) rfl _ _ _
+    cases kind <;> simp only [stepClient] <;> split
+    all_goals first
+      | (rw [view_setClient, view_ite_log]
+         exact H.move (pc := .createRecheck rev) hv hc rfl rfl (by intro _ _ h; cases h))
+      | exact finishCreate_P H (by rw [view_ite_log]; exact hv) (by rw [view_ite_log]; exact hc) rfl _ _ _
+  | createRecheck rev =>
+    cases kind <;> simp only [stepClient] <;> split
+    all_goals first
+      | exact finishCreate_P H hv hc rfl _ _ _
+      | (rw [view_setClient]; exact H.move (pc := .createRetry rev) hv hc rfl rfl (by intro _ _ h; cases h))
   | updateCommit rev =>
     cases kind with
     | update k v e =>
